@@ -28,7 +28,77 @@ def cases(draw, subject, max_n):
     return case
 
 
+UP = ("SMA", "EMA", "ROC", "OBV", "RSI", "ATR", "HighLowAverage", "WMA")
+DOWN = ("SMA", "EMA", "RMA", "WMA", "HMA", "RSI", "ROC", "StandardDeviation", "BBANDS", "MACD", "STOCH", "TSI", "StandardDeviationThreshold")
+
+
+@st.composite
+def chain_cases(draw, max_n=50):
+    """a Hexital whose second member takes the first member's reading as its input (a late-starting series)"""
+    up = draw(gc.config(draw(st.sampled_from(UP))))
+    down = draw(gc.config(draw(st.sampled_from(DOWN))))
+    for cfg in (up, down):
+        for k in list(cfg["kw"]):
+            if "period" in k and isinstance(cfg["kw"][k], int):
+                cfg["kw"][k] = min(cfg["kw"][k], draw(st.integers(2, 6)))
+        if cfg.get("cls") == "MACD" and cfg["kw"]["fast_period"] >= cfg["kw"]["slow_period"]:
+            cfg["kw"]["slow_period"] = cfg["kw"]["fast_period"] + 1
+    up["kw"].pop("input_value", None)
+    up["kw"]["fullname_override"] = "UP"
+    down["kw"]["input_value"] = "UP"
+    down["kw"]["fullname_override"] = "DOWN"
+    base = draw(twin.twin_cases("HighLowAverage", max_n=max_n))
+    base.pop("cfg")
+    base["chain"] = [up, down]
+    return base
+
+
+def _run_chain(case):
+    from hexital import Hexital
+
+    from hxv.lib import build_indicator, mgr_kwargs, mk_candles
+
+    labels = ["chain"] + (["has_tf"] if case.get("tf") else [])
+    pre, chunks = twin.schedule(case)
+
+    def build(rows):
+        return Hexital("c01", mk_candles(rows), [build_indicator(c) for c in case["chain"]], **mgr_kwargs(case))
+
+    b_exc = i_exc = None
+    try:
+        batch = build(case["stream"])
+        batch.calculate()
+    except Exception as exc:
+        b_exc = exc
+    try:
+        inc = build(pre)
+        if case.get("preload_calc"):
+            inc.calculate()
+        for ch in chunks:
+            inc.append(mk_candles(ch))
+        inc.calculate()
+    except Exception as exc:
+        i_exc = exc
+    if b_exc is not None and i_exc is not None:
+        return Result([], False, labels + ["both_raise"])
+    if b_exc is not None or i_exc is not None:
+        v = raises(b_exc or i_exc, "chain")
+        v.kind = ("batch-only-" if b_exc else "incremental-only-") + v.kind
+        return Result([v], False, labels)
+    a, b = snap(inc.candles()), snap(batch.candles())
+    viol = []
+    d = first_diff(a, b)
+    if d is not None:
+        i, text = d
+        key = diff_key(a[i], b[i]) if i < len(a) and i < len(b) else "length"
+        viol.append(Violation("incremental-differs-from-batch", key, f"chain {[gc.subject_of(c) for c in case['chain']]} candle {i}: incremental vs batch {text}", "chain"))
+    nontrivial = len(chunks) >= 2 and any(r[6].get("DOWN") not in (None, {}) for r in b)
+    return Result(viol, nontrivial, labels)
+
+
 def run_case(case) -> Result:
+    if "chain" in case:
+        return _run_chain(case)
     subject = gc.subject_of(case["cfg"])
     labels = []
     if case.get("tf"):
@@ -91,6 +161,7 @@ def shards(tier):
     for s in gc.SUBJECTS:
         cost = 3 if s in ("ADX", "TSI", "STOCH", "MACD", "HMA", "Supertrend") else 1
         out.append(Shard(s, (lambda s=s: cases(s, mx)), n, subject=s, cost=cost))
+    out += [Shard(f"chain-{i}", lambda: chain_cases(mx), n, subject="chain", cost=2) for i in range(3)]
     for s in gc.SUBJECTS:
         out.append(Shard("enum:" + s, cases=_enumerated(s), subject=s, exhaustive=True, cost=0.5))
     return out
